@@ -948,7 +948,7 @@ func Run(o *hx.Out, g *hx.Rng, tier string) {
 	budget := 35 * time.Second
 	if tier == "thorough" {
 		nsyn, nhist = 600, 40*len(cryptKinds)
-		budget = 11 * time.Minute
+		budget = 9 * time.Minute
 	}
 	for i := 0; i < nsyn; i++ {
 		synthetic(o, g.Fork(), 20+g.Intn(200))
